@@ -551,7 +551,7 @@ func runC12(p *Program, r *Report) {
 			r.Check("C12.auth", "authenticateOrigin", "URL provenance", pos, nURL == 1, "the URL whose Host is compared is the result of url.Parse(Origin header) and nothing else", fmt.Sprintf("url values: %d", nURL))
 		}
 	}
-	if fn := p.FuncOpt("match"); fn != nil { // optional: C12.auth reads through it
+	if fn := p.FuncOpt("match"); fn != nil && p.absorbed["match"] != fn { // optional: C12.auth reads through it
 		p.forAllPaths(r, "C12.match", fn, "whole-string, case-insensitive", Opts{}, "match(pattern, s) = filepath.Match(strings.ToLower(pattern), strings.ToLower(s))", func(pa *Path) (bool, string) {
 			fm := pa.Calls("filepath.Match")
 			if len(fm) != 1 {
